@@ -208,15 +208,18 @@ theorem finishDataPage_ok (fx : Fixes) (L : Libs) (verify : Bool) (mode : Mode) 
         split at hk2
         · cases hk2
         · split at hk2
-          · obtain ⟨d, _, hk3⟩ := andThen_ok _ _ _ hk2
-            simp only [Load.pure, Except.ok.injEq] at hk3
-            rw [← hk3]
+          · simp only [Load.pure, Except.ok.injEq] at hk2
+            rw [← hk2]
           · split at hk2
-            · cases hk2
+            · obtain ⟨d, _, hk3⟩ := andThen_ok _ _ _ hk2
+              simp only [Load.pure, Except.ok.injEq] at hk3
+              rw [← hk3]
             · split at hk2
               · cases hk2
-              · simp only [Load.pure, Except.ok.injEq] at hk2
-                rw [← hk2]
+              · split at hk2
+                · cases hk2
+                · simp only [Load.pure, Except.ok.injEq] at hk2
+                  rw [← hk2]
 
 /-- a successful `load_next_page`: in the state it leaves behind (`stateAfterLoad`) the explicit
 dictionary is settled, `current_page` is unchanged, the data page was found at that state's page
